@@ -286,6 +286,8 @@ impl BackupManager {
     pub fn execute_backup(&self, handle: &BackupHandle) -> Result<()> {
         // Copy .ndb file
         self.copy_ndb_file(handle)?;
+        #[cfg(nervusdb_verif)]
+        crate::verif_sched::point("backup.between_copies");
 
         // Copy .wal file (from checkpoint position)
         self.copy_wal_file(handle)?;
